@@ -210,6 +210,167 @@ Section Transmission.
   Qed.
 End Transmission.
 
+(** * The same transmission with NO voice segment: the trailer follows the header by one second, so
+    the header's hold runs out while the first trailer burst is being received (no idle polling
+    happens during a burst).  That burst votes with the two header bursts still in the history to
+    the header again, with fewer voting bytes than the held one, so the held one stays and is
+    released by the idle step of that very call; the second trailer burst establishes the
+    EndOfMessage, which is returned at once. *)
+Lemma burst_refused_then_release s b now h d :
+  b <> [] ->
+  Forall (fun e => now < t_deadline e) (a_history s) -> (length (a_history s) <= 2)%nat ->
+  a_pending s = Some (mkTimed (Ok (SOM h)) d) -> d <= now ->
+  (let c := deduplicate (prune_previous (a_previous s) now) (combine (map t_data (a_history s ++ [entry b now]))) in
+   c = None \/ exists h4, c = Some (Ok (SOM h4)) /\ h_voting h4 < h_voting h) ->
+  asm_assemble s b now =
+  (TMessage (Ok (SOM h)), mkAsm (keep_last2 (a_history s ++ [entry b now])) None
+                               (Some (mkTimed (SOM h) (now + MAX_HISTORY_DURATION)))).
+Proof.
+  intros Hb Hh Hl Hp Hd Hc. rewrite assemble_live by assumption. cbv zeta in *. rewrite Hp.
+  assert (match deduplicate (prune_previous (a_previous s) now) (combine (map t_data (a_history s ++ [entry b now]))) with
+          | Some msg => pending_accept (Some (mkTimed (Ok (SOM h)) d)) msg now
+          | None => Some (mkTimed (Ok (SOM h)) d) end = Some (mkTimed (Ok (SOM h)) d)) as ->.
+  { destruct Hc as [-> | (h4 & -> & Hv)]; [reflexivity|].
+    cbn [pending_accept t_data]. assert ((h_voting h <=? h_voting h4) = false) as -> by lia. reflexivity. }
+  unfold pending_poll, is_expired_at. cbn [t_deadline t_data].
+  assert ((d <=? now) = true) as -> by lia. reflexivity.
+Qed.
+
+Section NoVoiceGap.
+  Variables (prev0 : option (timed message)) (b1 b2 b3 n1 n2 n3 : bytes) (h : header).
+  Variables (t1 t2 t3 u1 u2 u3 : N) (polls1 polls2 pa polls4 polls5 polls6 : list N).
+  Hypothesis Hb1 : b1 <> []. Hypothesis Hb2 : b2 <> []. Hypothesis Hb3 : b3 <> [].
+  Hypothesis Hn1 : n1 <> []. Hypothesis Hn2 : n2 <> []. Hypothesis Hn3 : n3 <> [].
+  Hypothesis Hnd : nd h (prune_previous prev0 t1).
+  Hypothesis Htext : h_text h <> PREFIX_MESSAGE_END.
+  Hypothesis C1 : combine [trunc b1] = None.
+  Hypothesis C2 : combine [trunc b1; trunc b2] <> Some (Ok EOM).
+  Hypothesis C2v : votes_le [trunc b1; trunc b2] h.
+  Hypothesis C3 : combine [trunc b1; trunc b2; trunc b3] = Some (Ok (SOM h)).
+  (** the first trailer burst with the last two header bursts: nothing, or the same text with fewer voting bytes *)
+  Hypothesis C4 : combine [trunc b2; trunc b3; trunc n1] = None
+                  \/ exists h4, combine [trunc b2; trunc b3; trunc n1] = Some (Ok (SOM h4))
+                                 /\ h_text h4 = h_text h /\ h_voting h4 < h_voting h.
+  Hypothesis C5 : combine [trunc b3; trunc n1; trunc n2] = Some (Ok EOM).
+  Hypothesis C6 : combine [trunc n1; trunc n2; trunc n3] = Some (Ok EOM).
+  Hypothesis T12 : t1 <= t2. Hypothesis T23 : t2 <= t3.
+  (** the hold of the third header burst has run out when the first trailer burst ends *)
+  Hypothesis Tf : t3 + MAX_INTERBURST_SYMBOLS <= u1.
+  Hypothesis U12 : u1 <= u2. Hypothesis U23 : u2 <= u3.
+  Hypothesis Win : u3 < t2 + MAX_HISTORY_DURATION.
+  Hypothesis Win1 : t3 < t1 + MAX_HISTORY_DURATION.
+  Hypothesis P1 : Forall (fun n => n < t1 + MAX_HISTORY_DURATION) polls1.
+  Hypothesis P2 : Forall (fun n => n < t2 + MAX_INTERBURST_SYMBOLS /\ n < t1 + MAX_HISTORY_DURATION) polls2.
+  (** idle polling between the header and the trailer stops before the hold runs out *)
+  Hypothesis Pa : Forall (fun n => n < t3 + MAX_INTERBURST_SYMBOLS /\ n < t2 + MAX_HISTORY_DURATION) pa.
+  Hypothesis P4 : Forall (fun n => n < t2 + MAX_HISTORY_DURATION) polls4.
+  Hypothesis P5 : Forall (fun n => n < t2 + MAX_HISTORY_DURATION) polls5.
+
+  Definition no_gap_ops : list aop :=
+    OBurst b1 t1 :: map OIdle polls1 ++ OBurst b2 t2 :: map OIdle polls2 ++ OBurst b3 t3 :: map OIdle pa
+    ++ OBurst n1 u1 :: map OIdle polls4 ++ OBurst n2 u2 :: map OIdle polls5
+    ++ OBurst n3 u3 :: map OIdle polls6.
+
+  Theorem transmission_exact_no_voice_gap :
+    msgs (fst (asm_run (mkAsm [] None prev0) no_gap_ops)) = [(u1, Ok (SOM h)); (u2, Ok EOM)].
+  Proof.
+    pose proof MIS_le_MHD as Hle. pose proof MHD_pos as Hpos. pose proof MIS_pos as Hpos2.
+    unfold no_gap_ops.
+    (* header burst 1 *)
+    rewrite asm_run_cons. cbn [asm_op op_time fst snd].
+    destruct (burst_from_empty (mkAsm [] None prev0) b1 t1 h Hb1) as (o1 & pend1 & prev1 & E1 & Hn1' & _ & _ & _ & Hnone1 & Hmsg1);
+      [constructor|cbn [a_history length]; repeat constructor|reflexivity|exact Hnd|exact Htext| |].
+    { cbn [a_history app map t_data entry]. intros h2 Hh2. rewrite C1 in Hh2. discriminate. }
+    cbn [a_history app map t_data entry] in Hnone1, Hmsg1.
+    assert (pend1 = None) as -> by (apply Hnone1; left; exact C1).
+    assert (msgs [(t1, o1)] = []) as M1.
+    { cbn [msgs]. destruct o1 as [| |r]; try reflexivity. destruct (Hmsg1 r eq_refl) as [_ Hc]. rewrite C1 in Hc. discriminate. }
+    rewrite E1. cbn [fst snd a_history app keep_last2].
+    change ((t1, o1) :: ?x) with ([(t1, o1)] ++ x). rewrite msgs_app, M1. cbn [app].
+    rewrite noop_msgs.
+    2:{ eapply Forall_impl; [|exact P1]. cbn. intros n Hn0. split; [intros p Hp; discriminate|].
+        constructor; [unfold entry; cbn [t_deadline]; exact Hn0|constructor]. }
+    2:{ cbn [a_history length]; repeat constructor. }
+    (* header burst 2 *)
+    rewrite asm_run_cons. cbn [asm_op op_time fst snd].
+    destruct (burst_from_empty (mkAsm [entry b1 t1] None prev1) b2 t2 h Hb2)
+      as (o2 & pend2 & prev2 & E2 & Hn2' & _ & Hw2 & Hd2 & _ & Hmsg2);
+      [constructor; [unfold entry; cbn [t_deadline]; clear - T12 T23 Tf U12 U23 Win Win1 Hle Hpos Hpos2 ; lia|constructor]|cbn [a_history length]; repeat constructor
+       |reflexivity|apply nd_prune, Hn1'|exact Htext|exact C2v|].
+    cbn [a_history app map t_data entry] in Hmsg2.
+    assert (msgs [(t2, o2)] = []) as M2.
+    { cbn [msgs]. destruct o2 as [| |r]; try reflexivity. destruct (Hmsg2 r eq_refl) as [_ Hc]. exfalso. exact (C2 Hc). }
+    rewrite E2. cbn [fst snd a_history app keep_last2].
+    change ((t2, o2) :: ?x) with ([(t2, o2)] ++ x). rewrite msgs_app, M2. cbn [app].
+    rewrite noop_msgs.
+    2:{ eapply Forall_impl; [|exact P2]. cbn. intros n [Hn0 Hn0']. split.
+        - intros p Hp. rewrite (Hd2 p Hp). exact Hn0.
+        - constructor; [unfold entry; cbn [t_deadline]; exact Hn0'|].
+          constructor; [unfold entry; cbn [t_deadline]; clear - T12 T23 Tf U12 U23 Win Win1 Hle Hpos Hpos2 Hn0'; lia|constructor]. }
+    2:{ cbn [a_history length]; repeat constructor. }
+    (* header burst 3 *)
+    rewrite asm_run_cons. cbn [asm_op op_time fst snd].
+    rewrite (burst_establishes _ b3 t3 h Hb3);
+      [| constructor; [unfold entry; cbn [t_deadline]; exact Win1|];
+         constructor; [unfold entry; cbn [t_deadline]; clear - T12 T23 Tf U12 U23 Win Win1 Hle Hpos Hpos2 ; lia|constructor]
+       | cbn [a_history length]; repeat constructor | exact Hw2 | exact Hn2' | exact C3].
+    cbn [fst snd msgs a_history app keep_last2].
+    rewrite noop_msgs.
+    2:{ eapply Forall_impl; [|exact Pa]. cbn. intros n [Hn0 Hn0']. split.
+        - intros p Hp. inversion Hp; subst. cbn [t_deadline]. exact Hn0.
+        - constructor; [unfold entry; cbn [t_deadline]; exact Hn0'|].
+          constructor; [unfold entry; cbn [t_deadline]; clear - T12 T23 Tf U12 U23 Win Win1 Hle Hpos Hpos2 Hn0'; lia|constructor]. }
+    2:{ cbn [a_history length]; repeat constructor. }
+    (* trailer burst 1: the held header is not replaced and is released by this call *)
+    rewrite asm_run_cons. cbn [asm_op op_time fst snd].
+    rewrite (burst_refused_then_release _ n1 u1 h (t3 + MAX_INTERBURST_SYMBOLS) Hn1);
+      [| | cbn [a_history length]; repeat constructor | reflexivity | exact Tf | ].
+    2:{ constructor; [unfold entry; cbn [t_deadline]; clear - T12 T23 Tf U12 U23 Win Win1 Hle Hpos Hpos2 ; lia|].
+        constructor; [unfold entry; cbn [t_deadline]; clear - T12 T23 Tf U12 U23 Win Win1 Hle Hpos Hpos2 ; lia|constructor]. }
+    2:{ cbn [a_history a_previous app map t_data entry]. cbv zeta.
+        destruct C4 as [C4n|(h4 & C4s & C4t & C4v)]; [rewrite C4n; left; reflexivity|].
+        rewrite C4s. cbn [deduplicate].
+        assert (is_not_duplicate (prune_previous (prune_previous prev2 t3) u1) (SOM h4) = true) as ->.
+        { pose proof (nd_prune h _ u1 (nd_prune h _ t3 Hn2')) as Hx. unfold nd, is_not_duplicate in *.
+          cbn [message_as_str] in *. rewrite C4t. exact Hx. }
+        right. exists h4. split; [reflexivity|exact C4v]. }
+    cbn [fst snd msgs a_history app keep_last2]. f_equal.
+    rewrite noop_msgs.
+    2:{ eapply Forall_impl; [|exact P4]. cbn. intros n Hn0. split; [intros p Hp; discriminate|].
+        constructor; [unfold entry; cbn [t_deadline]; clear - T12 T23 Tf U12 U23 Win Win1 Hle Hpos Hpos2 Hn0; lia|].
+        constructor; [unfold entry; cbn [t_deadline]; clear - T12 T23 Tf U12 U23 Win Win1 Hle Hpos Hpos2 Hn0; lia|constructor]. }
+    2:{ cbn [a_history length]; repeat constructor. }
+    (* trailer burst 2: establishes the EndOfMessage, returned at once *)
+    rewrite asm_run_cons. cbn [asm_op op_time fst snd].
+    assert (prune_previous (Some (mkTimed (SOM h) (u1 + MAX_HISTORY_DURATION))) u2
+            = Some (mkTimed (SOM h) (u1 + MAX_HISTORY_DURATION))) as Pr2.
+    { unfold prune_previous, is_expired_at. cbn [t_deadline].
+      assert ((u1 + MAX_HISTORY_DURATION <=? u2) = false) as -> by (clear - T12 T23 Tf U12 U23 Win Win1 Hle Hpos Hpos2 ; lia). reflexivity. }
+    rewrite (burst_eom_now _ n2 u2 Hn2); [| | cbn [a_history length]; repeat constructor | reflexivity | ].
+    2:{ constructor; [unfold entry; cbn [t_deadline]; clear - T12 T23 Tf U12 U23 Win Win1 Hle Hpos Hpos2 ; lia|].
+        constructor; [unfold entry; cbn [t_deadline]; clear - T12 T23 Tf U12 U23 Win Win1 Hle Hpos Hpos2 ; lia|constructor]. }
+    2:{ cbn [a_history a_previous app map t_data entry]. rewrite Pr2, C5.
+        cbn [deduplicate is_not_duplicate t_data message_as_str].
+        destruct (list_eqb (h_text h) PREFIX_MESSAGE_END) eqn:E; [|reflexivity].
+        exfalso. apply Htext. apply list_eqb_true, E. }
+    cbn [fst snd msgs a_history app keep_last2]. f_equal.
+    rewrite noop_msgs.
+    2:{ eapply Forall_impl; [|exact P5]. cbn. intros n Hn0. split; [intros p Hp; discriminate|].
+        constructor; [unfold entry; cbn [t_deadline]; clear - T12 T23 Tf U12 U23 Win Win1 Hle Hpos Hpos2 Hn0; lia|].
+        constructor; [unfold entry; cbn [t_deadline]; clear - T12 T23 Tf U12 U23 Win Win1 Hle Hpos Hpos2 Hn0; lia|constructor]. }
+    2:{ cbn [a_history length]; repeat constructor. }
+    (* trailer burst 3: duplicate *)
+    rewrite asm_run_cons. cbn [asm_op op_time fst snd].
+    rewrite (burst_duplicate_eom _ n3 u3 (u2 + MAX_HISTORY_DURATION) Hn3); [| | cbn [a_history length]; repeat constructor | reflexivity | reflexivity | | ].
+    2:{ constructor; [unfold entry; cbn [t_deadline]; clear - T12 T23 Tf U12 U23 Win Win1 Hle Hpos Hpos2 ; lia|].
+        constructor; [unfold entry; cbn [t_deadline]; clear - T12 T23 Tf U12 U23 Win Win1 Hle Hpos Hpos2 ; lia|constructor]. }
+    2:{ clear - T12 T23 Tf U12 U23 Win Win1 Hle Hpos Hpos2 ; lia. }
+    2:{ cbn [a_history app map t_data entry]. exact C6. }
+    cbn [fst snd msgs].
+    rewrite polls_msgs. reflexivity.
+  Qed.
+End NoVoiceGap.
+
 (** * Instantiation: three intact copies of a canonical header, three bursts starting "NN" *)
 Lemma combine_single_not_NN a A : mask7 a <> 78 -> combine [a :: A] = None.
 Proof.
@@ -315,3 +476,152 @@ Proof.
   - rewrite TH. apply combine_X_NN; assumption.
   - apply combine_NN; [cbn [length]; lia|repeat constructor; assumption].
 Qed.
+
+(** instance: a canonical header three times, then — one second later — three bursts starting "NN",
+    each shorter than the header (they are: "NNNN" plus a few junk bytes against at least 37) *)
+Theorem clean_transmission_no_voice_gap H h0 prev0 n1 n2 n3 t1 t2 t3 u1 u2 u3 polls1 polls2 pa polls4 polls5 polls6 :
+  header_new H = Ok h0 -> h_text h0 = H -> forallb is_allowed_byte H = true ->
+  (length H <= MAX_MESSAGE_LENGTH)%nat -> nd h0 (prune_previous prev0 t1) ->
+  starts_NN n1 -> starts_NN n2 -> starts_NN n3 -> all_bytes n1 = true -> (length n1 < length H)%nat ->
+  t1 <= t2 -> t2 <= t3 -> t3 + MAX_INTERBURST_SYMBOLS <= u1 -> u1 <= u2 -> u2 <= u3 ->
+  u3 < t2 + MAX_HISTORY_DURATION -> t3 < t1 + MAX_HISTORY_DURATION ->
+  Forall (fun n => n < t1 + MAX_HISTORY_DURATION) polls1 ->
+  Forall (fun n => n < t2 + MAX_INTERBURST_SYMBOLS /\ n < t1 + MAX_HISTORY_DURATION) polls2 ->
+  Forall (fun n => n < t3 + MAX_INTERBURST_SYMBOLS /\ n < t2 + MAX_HISTORY_DURATION) pa ->
+  Forall (fun n => n < t2 + MAX_HISTORY_DURATION) polls4 ->
+  Forall (fun n => n < t2 + MAX_HISTORY_DURATION) polls5 ->
+  msgs (fst (asm_run (mkAsm [] None prev0)
+              (no_gap_ops H H H n1 n2 n3 t1 t2 t3 u1 u2 u3 polls1 polls2 pa polls4 polls5 polls6)))
+  = [(u1, Ok (SOM (mkHeader H (h_offset_time h0) (parity_spec H H) (voting_spec H H)))); (u2, Ok EOM)].
+Proof.
+  intros Hnew Htext Hall Hlen Hnd S1 S2 S3 Hb1 Hshort T12 T23 Tf U12 U23 Win Win1 Q1 Q2 Qa Q4 Q5.
+  assert (H <> []) as HHne by (rewrite <- Htext; eapply header_new_text_nonempty, Hnew).
+  assert (all_bytes H = true) as HHb by (apply ascii_all_bytes, forallb_allowed_ascii, Hall).
+  pose proof (trunc_short H Hlen) as TH.
+  pose proof (starts_NN_nonempty _ S1) as N1. pose proof (starts_NN_nonempty _ S2) as N2. pose proof (starts_NN_nonempty _ S3) as N3.
+  pose proof (starts_NN_trunc _ S1) as S1t. pose proof (starts_NN_trunc _ S2) as S2t. pose proof (starts_NN_trunc _ S3) as S3t.
+  pose proof (combine_two_good P2 H H h0 Hnew Htext Hall Hlen HHb) as C3. cbn [arr] in C3.
+  set (h := mkHeader H (h_offset_time h0) (parity_spec H H) (voting_spec H H)) in *.
+  destruct (header_new_ok_inv _ _ Hnew) as (_ & n & Hchk & _).
+  pose proof (check_header_starts H _ Hchk) as Hs.
+  apply (transmission_exact_no_voice_gap prev0 H H H n1 n2 n3 h t1 t2 t3 u1 u2 u3 polls1 polls2 pa polls4 polls5 polls6);
+    try assumption.
+  - unfold nd, is_not_duplicate in *. cbn [message_as_str h h_text] in *. rewrite Htext in Hnd. exact Hnd.
+  - cbn [h h_text]. intros E. rewrite E in Hs. discriminate.
+  - rewrite TH. destruct H as [|c0 Hr]; [contradiction|]. apply combine_single_not_NN.
+    cbn [starts_with PREFIX_MESSAGE_START] in Hs. apply andb_prop in Hs. destruct Hs as [Hc _].
+    apply N.eqb_eq in Hc. subst c0. discriminate.
+  - rewrite TH. pose proof (combine_two_good P2 H [] h0 Hnew Htext Hall Hlen eq_refl) as C2.
+    cbn [arr] in C2. rewrite combine_HH_empty in C2. intros E. pose proof (eq_trans (eq_sym E) C2) as X. discriminate X.
+  - rewrite TH. intros h2 E. rewrite (combine_two_voting_zero H H h2 HHb HHb E). lia.
+  - rewrite TH. exact C3.
+  - rewrite TH. right.
+    pose proof (combine_two_good P2 H (trunc n1) h0 Hnew Htext Hall Hlen (all_bytes_firstn _ _ Hb1)) as C4.
+    cbn [arr] in C4. eexists. split; [exact C4|]. split; [reflexivity|].
+    cbn [h h_voting]. unfold voting_spec.
+    assert (length (trunc n1) <= length n1)%nat by (unfold trunc; rewrite firstn_length; lia).
+    lia.
+  - rewrite TH. apply combine_X_NN; assumption.
+  - apply combine_NN; [cbn [length]; lia|repeat constructor; assumption].
+Qed.
+
+(** * C05: a second, different transmission after the first has been reported.
+    The history still holds the last two bursts [x], [y] of the first transmission and the duplicate
+    record holds its header [ha].  The first burst of the new transmission votes with them to [ha]
+    again (suppressed as a duplicate) or to nothing; the second and third establish the new header
+    [hb], which is reported once, 682 symbols after the third burst: the two transmissions are
+    reported in the order transmitted. *)
+Section FollowOn.
+  Variables (x y : timed bytes) (ha hb : header) (d : N) (b1 b2 b3 : bytes).
+  Variables (t1 t2 t3 : N) (polls1 polls2 polls3 : list N).
+  Hypothesis Hb1 : b1 <> []. Hypothesis Hb2 : b2 <> []. Hypothesis Hb3 : b3 <> [].
+  Hypothesis Hdiff : h_text ha <> h_text hb.
+  Hypothesis Htext : h_text hb <> PREFIX_MESSAGE_END.
+  Hypothesis Lx : t3 < t_deadline x. Hypothesis Ly : t3 < t_deadline y. Hypothesis Ld : t3 < d.
+  Hypothesis C1 : dup_or_none ha (combine [t_data x; t_data y; trunc b1]).
+  Hypothesis C2v : votes_le [t_data y; trunc b1; trunc b2] hb.
+  Hypothesis C3 : combine [trunc b1; trunc b2; trunc b3] = Some (Ok (SOM hb)).
+  Hypothesis T12 : t1 <= t2. Hypothesis T23 : t2 <= t3.
+  Hypothesis Win : t3 < t1 + MAX_HISTORY_DURATION.
+  Hypothesis P1 : Forall (fun n => n < t3) polls1.
+  Hypothesis P2 : Forall (fun n => n < t2 + MAX_INTERBURST_SYMBOLS /\ n < t3) polls2.
+
+  Lemma nd_other : nd hb (Some (mkTimed (SOM ha) d)).
+  Proof.
+    unfold nd, is_not_duplicate. cbn [t_data message_as_str].
+    destruct (list_eqb (h_text ha) (h_text hb)) eqn:E; [|reflexivity].
+    exfalso. apply Hdiff. apply list_eqb_true, E.
+  Qed.
+
+  Theorem follow_on_reported_once :
+    som_reports (fst (asm_run (mkAsm [x; y] None (Some (mkTimed (SOM ha) d)))
+        (OBurst b1 t1 :: map OIdle polls1 ++ OBurst b2 t2 :: map OIdle polls2 ++ OBurst b3 t3 :: map OIdle polls3)))
+    = match find (fun n => t3 + MAX_INTERBURST_SYMBOLS <=? n) polls3 with
+      | Some tf => [(tf, hb)]
+      | None => []
+      end.
+  Proof.
+    pose proof MIS_le_MHD as Hle. pose proof MHD_pos as Hpos. pose proof MIS_pos as Hpos2.
+    assert (forall n, n <= t3 -> prune_previous (Some (mkTimed (SOM ha) d)) n = Some (mkTimed (SOM ha) d)) as Hprev.
+    { intros n Hn. unfold prune_previous, is_expired_at. cbn [t_deadline].
+      assert ((d <=? n) = false) as -> by (clear - Hn Ld; lia). reflexivity. }
+    (* first burst: suppressed *)
+    rewrite asm_run_cons. cbn [asm_op op_time fst snd].
+    rewrite (burst_suppressed _ b1 t1 Hb1); [| | cbn [a_history length]; repeat constructor | reflexivity | ].
+    2:{ constructor; [clear - Lx T12 T23; lia|]. constructor; [clear - Ly T12 T23; lia|constructor]. }
+    2:{ cbn [a_history a_previous app map t_data entry]. rewrite Hprev by (clear - T12 T23; lia). apply dedup_dup_or_none, C1. }
+    cbn [fst snd a_history a_previous app keep_last2]. rewrite Hprev by (clear - T12 T23; lia).
+    rewrite som_reports_cons_other by discriminate.
+    rewrite asm_run_app. cbn [fst snd]. rewrite polls_noop.
+    2:{ eapply Forall_impl; [|exact P1]. cbn. intros n Hn0. split; [intros p Hp; discriminate|].
+        constructor; [clear - Hn0 Ly; lia|]. constructor; [unfold entry; cbn [t_deadline]; clear - Hn0 Win Hpos; lia|constructor]. }
+    2:{ cbn [a_history length]; repeat constructor. }
+    cbn [fst snd]. rewrite som_reports_app. unfold som_reports at 1. rewrite msgs_idle_out. cbn [soms app].
+    (* second burst *)
+    rewrite asm_run_cons. cbn [asm_op op_time fst snd].
+    destruct (burst_from_empty (mkAsm [y; entry b1 t1] None (Some (mkTimed (SOM ha) d))) b2 t2 hb Hb2)
+      as (u & pend2 & prev2 & E2 & Hn2 & Hns2 & Hw2 & Hd2 & _ & _);
+      [constructor; [clear - Ly T23; lia|constructor; [unfold entry; cbn [t_deadline]; clear - T23 Win; lia|constructor]]
+       |cbn [a_history length]; repeat constructor|reflexivity
+       |cbn [a_previous]; rewrite Hprev by (clear - T23; lia); apply nd_other|exact Htext|exact C2v|].
+    rewrite E2. cbn [fst snd a_history app keep_last2].
+    rewrite som_reports_cons_other by exact Hns2.
+    rewrite asm_run_app. cbn [fst snd]. rewrite polls_noop.
+    2:{ eapply Forall_impl; [|exact P2]. cbn. intros n [Hn0 Hn0']. split.
+        - intros p Hp. rewrite (Hd2 p Hp). exact Hn0.
+        - constructor; [unfold entry; cbn [t_deadline]; clear - Hn0' Win; lia|].
+          constructor; [unfold entry; cbn [t_deadline]; clear - Hn0' Win T12; lia|constructor]. }
+    2:{ cbn [a_history length]; repeat constructor. }
+    cbn [fst snd]. rewrite som_reports_app. unfold som_reports at 1. rewrite msgs_idle_out. cbn [soms app].
+    (* third burst *)
+    rewrite asm_run_cons. cbn [asm_op op_time fst snd].
+    rewrite (burst_establishes _ b3 t3 hb Hb3);
+      [| constructor; [unfold entry; cbn [t_deadline]; exact Win|];
+         constructor; [unfold entry; cbn [t_deadline]; clear - Win T12; lia|constructor]
+       | cbn [a_history length]; repeat constructor | exact Hw2 | exact Hn2 | exact C3].
+    cbn [fst snd]. rewrite som_reports_cons_other by discriminate.
+    rewrite som_reports_polls. cbn [a_pending t_data t_deadline]. reflexivity.
+  Qed.
+End FollowOn.
+
+
+(** * Known finding F9: what follows the header in the bursts can extend a short callsign *)
+Definition f9_H : bytes := [90;67;90;67;45;80;69;80;45;65;68;82;45;50;57;52;53;53;55;45;54;57;55;53;54;51;43;56;54;50;57;45;48;52;48;49;51;52;50;45;77;70;90;45].   (* "ZCZC-PEP-ADR-294557-697563+8629-0401342-MFZ-" *)
+(** three intact copies of the header, each followed by two noise bytes; bitwise the noise votes to "H-" *)
+Example F9_junk_extends_callsign :
+  match combine [f9_H ++ [205; 156]; f9_H ++ [42; 165]; f9_H ++ [192; 235]] with
+  | Some (Ok (SOM h)) => h_text h = f9_H ++ [72; 45]      (* ... "-MFZ-H-" *)
+  | _ => False
+  end.
+Proof. vm_compute. reflexivity. Qed.
+
+Definition f9_old : bytes := [90;67;90;67;45;80;69;80;45;83;86;82;45;49;54;56;55;49;51;45;54;53;52;48;52;54;43;56;54;51;56;45;48;57;55;50;48;53;54;45;83;54;70;89;71;86;78;83;45].   (* an older burst: "ZCZC-PEP-SVR-168713-654046+8638-0972056-S6FYGVNS-" *)
+Definition f9_W : bytes := [90;67;90;67;45;69;113;100;45;78;73;67;45;53;53;56;57;51;49;43;50;50;48;52;45;50;50;50;49;48;50;52;45;78;87;85;45].     (* "ZCZC-Eqd-NIC-558931+2204-2221024-NWU-" *)
+(** an older, longer burst still in the history and two copies of the new header whose junk bytes
+    are complementary (0xFF / 0x00): the old burst's bytes "56-" decide the positions after the header *)
+Example F9_old_burst_extends_callsign :
+  match combine [f9_old; f9_W ++ [255; 255; 255]; f9_W ++ [0; 0; 0]] with
+  | Some (Ok (SOM h)) => h_text h = f9_W ++ [53; 54; 45] /\ h_voting h = 40      (* ... "-NWU-56-" *)
+  | _ => False
+  end.
+Proof. vm_compute. split; reflexivity. Qed.
